@@ -13,8 +13,8 @@ RULE = (
     "cases = call-only DAG programs (2-9 sites) with reused functions (one decorated function at several call sites, "
     "including pairs of sites with IDENTICAL arguments, and one function at 10-13 sites), deactivated sites (flags of known truthiness), 0-2 setup "
     "sites, 0-2 debug sites (RUN_DEBUG_NODES off, or on for whole-DAG calls), three resources, max_concurrency 1..4, "
-    "both flavours; a history of 1-3 calls on the SAME DAG instance, each call either whole-DAG or through a fresh "
-    "executor(target/exclude/root) and under its own schedule (controlled / free). oracle per call that completes: "
+    "both flavours; a history of 1-3 operations on the SAME DAG instance, each a whole-DAG call, a run through a fresh "
+    "executor(target/exclude/root), a run of an executor object created BEFORE the first operation, or dag.setup(target_nodes), each under its own schedule (controlled / free). oracle per call that completes: "
     "multiset of node-function entries == multiset of sites the reference evaluation executes for that selection "
     "(setup sites only on their first use); returned tuple == reference. non-trivial = >= 1 site that must not run "
     "(unselected / deactivated / already set up / disabled debug) and (a reused function or >= 2 calls)."
@@ -23,7 +23,7 @@ ASSUMPTIONS = [
     "selection closure as documented (roots -> descendants, minus excluded -> descendants, restricted to targets + ancestors)",
     "only executions that complete without error are judged (the property's precondition)",
 ]
-BUDGET = {"quick": {"shards": 4, "seconds": 40}, "thorough": {"shards": 16, "seconds": 420}}
+BUDGET = {"quick": {"shards": 8, "seconds": 40}, "thorough": {"shards": 16, "seconds": 420}}
 ORACLES = ("exactly_once", "values", "no_internal_error")
 
 
